@@ -27,6 +27,12 @@ MCTinyS == {"n_invalid", "r_eof", "ok_ka", "ok_chunked", "short", "r302_ka", "s5
 MCMicro == {"r_eof", "ok_ka", "short"}
 MCMicroN == {"n_invalid", "r_eof", "ok_ka", "short"}
 MCDispMicro == {"read", "release", "stream", "read1cl"}
+MCCov == {"ok_ka", "r_eof", "s503_ra_bad"}
+MCDispTwo == {"read", "release"}
+MCHead == {"ok_ka", "ok_close", "ok_chunked", "ok_10", "r_eof"}
+MCNoHead == {}
+\* will-close replies x mid-body faults (plus the plain ones), for the small exhaustive "edge" plan of the quick tier
+MCEdge == {"ok_ka", "ok_close", "ok_10", "s204_ka", "short_close", "bc_boom", "bc_reset", "bc_timeout"}
 MCDispAll == {"read", "read2rel", "release", "drain", "close", "stream", "read1all", "read1n", "read1cl"}
 MCDispSmall == {"read", "release", "close", "stream", "read1cl"}
 MCNoDefects == {}
@@ -43,6 +49,8 @@ MCMutReleaseKeeps == {"M_ReleaseKeepsConn"}
 MCMutDropped == {"M_DroppedNotClosed"}
 MCSleepBeforeDrain == {"SleepBeforeDrain"}
 MCRead1EndDoesNotClose == {"Read1EndDoesNotClose"}
+MCHeadShortcutOutsideCatcher == {"HeadShortcutOutsideCatcher"}
+MCUncleanExitClosesConnOnly == {"UncleanExitClosesConnOnly"}
 MCReleaseOnlyIfConn == {"ReleaseOnlyIfConn"}
 MCPutWithoutCheckout == {"PutWithoutCheckout"}
 
@@ -50,7 +58,8 @@ MCPutWithoutCheckout == {"PutWithoutCheckout"}
 SymSeq == <<"n_invalid", "n_boom", "c_refused", "c_timeout", "c_boom", "s_epipe", "s_reset", "s_oserr", "s_boom", "r_timeout", "r_reset",
             "r_eof", "r_garbage", "r_ssl", "r_boom", "ok_ka", "ok_close", "ok_chunked", "s503_ka", "s503_close",
             "s503_ra_bad", "s503_ra_boom", "r302_ka",
-            "r302_close", "short", "b_boom", "b_reset", "b_timeout", "x_stale">>
+            "r302_close", "short", "b_boom", "b_reset", "b_timeout", "x_stale", "ok_10", "s204_ka", "short_close",
+            "bc_boom", "bc_reset", "bc_timeout">>
 SymIdx(s) == CHOOSE i \in 1..Len(SymSeq) : SymSeq[i] = s
 RIdx(r) == CASE r = "F" -> 0 [] r = "0" -> 1 [] r = "1" -> 2 [] OTHER -> 3
 CfgIdx(c) == RIdx(c.retries) + 5 * (IF c.preload THEN 1 ELSE 0) + 3 * (IF c.release THEN 1 ELSE 0)
@@ -74,7 +83,7 @@ RECURSIVE SeqSum(_)
 SeqSum(q) == IF q = <<>> THEN 0 ELSE q[1] + SeqSum(Tail(q))
 StepIdx(st) == IF st.op = "disp" THEN DispIdx(st.how)
                ELSE IF st.op = "cut" THEN 1
-               ELSE SeqSum([i \in 1..Len(st.atts) |-> SymIdx(st.atts[i])]) + (IF st.how = "badarg" THEN 1 ELSE 0)
+               ELSE SeqSum([i \in 1..Len(st.atts) |-> SymIdx(st.atts[i])]) + (IF st.how = "badarg" THEN 1 ELSE IF st.how = "head" THEN 2 ELSE 0)
 Sampled == SampleM = 1 \/ (CfgOrd(cfg) + SeqSum([i \in 1..Len(hist) |-> StepIdx(hist[i])])) % SampleM = 0
 
 \* ---- emission ----
